@@ -359,6 +359,10 @@ func predict(m *model, o *op, condKeys map[string]bool) *prediction {
 		return normL(k)
 	}
 	switch o.kind {
+	case "firstorcreate", "firstorcreate-attrs", "firstorcreate-new":
+		p.predictFoc(m, o, condKeys, rowKey)
+	case "assoc-append", "assoc-replace", "assoc-clear", "assoc-delete":
+		p.predictAssoc(m, o)
 	case "create", "create-slice", "create-batches", "create-map", "create-maps":
 		for _, rc := range o.recs {
 			k, auto := rowKey(rc)
